@@ -11,6 +11,10 @@
 #include <stdlib.h>
 #include <string.h>
 
+/* harness/c13_hook.c: copy of bels.c whose belsGenMid takes its hash value from here when set */
+extern const unsigned char* c13_hash_override;
+err_t c13h_belsGenMid(octet mid[], size_t len, const octet m0[], const octet id[], size_t id_len);
+
 typedef struct { const unsigned char* p; size_t left; size_t calls; } tape_t;
 
 static void tape_gen(void* buf, size_t count, void* state)
@@ -82,6 +86,19 @@ static void handle(int argc, char** argv)
 		unsigned char* m = outbuf(len);
 		res(belsGenMid(m, len, m0, id, l2), m, len);
 		free(m), hex_free(m0, l1), hex_free(id, l2);
+	}
+	else if (strcmp(op, "genmidu") == 0 && argc == 5)
+	{
+		/* belsGenMid (copy with the hash hook) on the element u = the 32 octets given */
+		size_t len = u_arg(argv[2]);
+		unsigned char* m0 = hex_arg(argv[3], &l1);
+		unsigned char* u = hex_arg(argv[4], &l2);
+		unsigned char* m = outbuf(len);
+		if (l2 != 32) { printf("bad-op"); return; }
+		c13_hash_override = u;
+		res(c13h_belsGenMid(m, len, m0, (const octet*)"", 0), m, len);
+		c13_hash_override = 0;
+		free(m), hex_free(m0, l1), hex_free(u, l2);
 	}
 	else if (strcmp(op, "share") == 0 && argc == 9)
 	{
